@@ -394,6 +394,7 @@ class C20(vlib.Driver):
                 for pos, (t, r) in enumerate(zip(d["tests"], d["rolls"])):
                     ls_, bs_ = t["learn_step"], t["batch_size"]
                     want = 0
+                    calls = 0       # the n-step window is emptied with the env.reset() that starts every turn (f859dc3)
                     for i in range(n_it):
                         calls += 1
                         if nst == 0 or calls >= nst:
@@ -408,6 +409,10 @@ class C20(vlib.Driver):
                         out.append(Violation("learn-frequency", f"learn-frequency:{tag}",
                                              f"generation {gi} position {pos}: learn_step={ls_}, num_envs={ne}, batch_size={bs_}, delay={delay}, "
                                              f"memory capacity {cap}, n_step {nst}: {r[1]} learn calls in {n_it} iterations, expected {want}"))
+            if obs.get("mem_len") is not None and obs["mem_len"] != min(stored, cap):
+                out.append(Violation("stored-transitions", f"stored-transitions:{tag}",
+                                     f"the memory holds {obs['mem_len']} transitions after {G} generations; every turn of {n_it} iterations stores "
+                                     f"(iterations - (n_step - 1)) x num_envs = {max(0, n_it - max(0, nst - 1)) * ne}, expected {min(stored, cap)} (capacity {cap})"))
         if loop == "bandit":
             stored = 0
             for gi, d in enumerate(gens):
